@@ -28,6 +28,7 @@ type cgConfig struct {
 	Table      int  `json:"table"`
 	NotAllowed bool `json:"handle_method_not_allowed"`
 	Fallback   bool `json:"handle_fallback_route"`
+	Strict     bool `json:"strict_last_slash"`
 	Cap        int  `json:"capacity"`
 }
 
@@ -39,11 +40,12 @@ var cgTables = [][]refmodel.RouteDef{
 	{{Path: "/a/{x}", Methods: []string{"GET"}}, {Path: "/b/{x}", Methods: []string{"HEAD"}}, {Path: "/b/{x}", Methods: []string{"GET"}}},
 	{{Path: "/{all}", Methods: []string{"GET"}}, {Path: "/a/{x}", Methods: []string{"POST"}}, {Path: "/*", Methods: refmodel.Methods}},
 	{{Path: "/a/{x}[/{y}]", Methods: []string{"GET", "DELETE"}}, {Path: "/a/1", Methods: []string{"POST"}}, {Path: "/{x}/1", Methods: []string{"PUT"}}},
+	{{Path: "/a/{f:.+}", Methods: []string{"GET", "PUT"}}, {Path: "/{all}", Methods: []string{"HEAD", "POST"}}},
 }
 
 var cgRequests = []cgReq{
 	{"GET", "/a/1"}, {"GET", "/a/2"}, {"GET", "/a/b"}, {"HEAD", "/a/1"}, {"POST", "/a/1"}, {"DELETE", "/a/1"},
-	{"GET", "/b/1"}, {"HEAD", "/b/1"}, {"GET", "/1"}, {"PUT", "/a/1/"}, {"GET", "/zz/y/x"},
+	{"GET", "/b/1"}, {"HEAD", "/b/1"}, {"GET", "/1"}, {"PUT", "/a/1/"}, {"GET", "/zz/y/x"}, {"GET", "/a/1/"},
 }
 
 var cgRequestsMore = []cgReq{{"GET", "/a/1/2"}, {"OPTIONS", "/a/1"}, {"HEAD", "/1"}}
@@ -55,6 +57,9 @@ func cgOpts(c cgConfig, caching bool) []func(*rux.Router) {
 	}
 	if c.Fallback {
 		o = append(o, rux.HandleFallbackRoute)
+	}
+	if c.Strict {
+		o = append(o, rux.StrictLastSlash)
 	}
 	if caching {
 		o = append(o, rux.CachingWithNum(uint16(c.Cap)))
@@ -106,7 +111,9 @@ func histStr(h []cgReq) string {
 
 // cacheGraphRun explores the cache-state graph of one configuration.
 // mode "C07": transparency oracle; mode "C14": entry-present / served-from-cache oracle.
-func cacheGraphRun(c cgConfig, reqs []cgReq, mode string, st *fw.Stats) []fw.Viol {
+// Histories of length <= fullDepth are all explored (no state merging), so that memory outside the canonical
+// state (a flag flipped by one request, say) still shows in what follows; beyond it states are merged.
+func cacheGraphRun(c cgConfig, reqs []cgReq, mode string, fullDepth int, st *fw.Stats) []fw.Viol {
 	var viols []fw.Viol
 	add := func(sig, msg string) {
 		if len(viols) < 8 {
@@ -114,11 +121,11 @@ func cacheGraphRun(c cgConfig, reqs []cgReq, mode string, st *fw.Stats) []fw.Vio
 		}
 	}
 	defs := cgTables[c.Table]
-	tb, err := refmodel.NewTable(defs, refmodel.Opts{NotAllowed: c.NotAllowed, Fallback: c.Fallback})
+	tb, err := refmodel.NewTable(defs, refmodel.Opts{NotAllowed: c.NotAllowed, Fallback: c.Fallback, Strict: c.Strict})
 	if err != nil {
 		panic(err)
 	}
-	cfg := fmt.Sprintf("table [%s] notAllowed=%v fallback=%v capacity=%d", defsString(defs), c.NotAllowed, c.Fallback, c.Cap)
+	cfg := fmt.Sprintf("table [%s] notAllowed=%v fallback=%v strict=%v capacity=%d", defsString(defs), c.NotAllowed, c.Fallback, c.Strict, c.Cap)
 	// the non-caching twin is stateless: one expected observation per request
 	recT := &hitRec{}
 	twin, pv := buildRouter(defs, recT, cgOpts(c, false)...)
@@ -231,10 +238,13 @@ func cacheGraphRun(c cgConfig, reqs []cgReq, mode string, st *fw.Stats) []fw.Vio
 					}
 				}
 			}
-			if !seen[post] {
+			isNew := !seen[post]
+			if isNew {
 				seen[post] = true
 				st.States++
 				st.Nontrivial++
+			}
+			if isNew || len(h)+1 <= fullDepth {
 				h2 := append(append([]int(nil), h...), qi)
 				frontier = append(frontier, h2)
 				st.Max("max_depth", int64(len(h2)))
@@ -252,8 +262,9 @@ func cacheGraphRun(c cgConfig, reqs []cgReq, mode string, st *fw.Stats) []fw.Vio
 }
 
 type c07Case struct {
-	Cfg cgConfig `json:"config"`
-	Ext bool     `json:"extended_alphabet"`
+	Cfg  cgConfig `json:"config"`
+	Ext  bool     `json:"extended_alphabet"`
+	Full int      `json:"unmerged_depth"`
 }
 
 func cgGen(tier string, emit func(cgConfig, bool)) {
@@ -262,12 +273,19 @@ func cgGen(tier string, emit func(cgConfig, bool)) {
 		maxCap = 4
 	}
 	for t := range cgTables {
-		for o := 0; o < 4; o++ {
+		for o := 0; o < 8; o++ {
 			for c := 0; c <= maxCap; c++ {
-				emit(cgConfig{Table: t, NotAllowed: o&1 != 0, Fallback: o&2 != 0, Cap: c}, tier == "thorough")
+				emit(cgConfig{Table: t, NotAllowed: o&1 != 0, Fallback: o&2 != 0, Strict: o&4 != 0, Cap: c}, tier == "thorough")
 			}
 		}
 	}
+}
+
+func cgFullDepth(tier string) int {
+	if tier == "thorough" {
+		return 3
+	}
+	return 2
 }
 
 func cgReqs(ext bool) []cgReq {
@@ -281,21 +299,21 @@ var c07Spec = fw.Spec[c07Case]{
 	ID:         "C07",
 	Level:      "model_checking",
 	StateGraph: true,
-	Rule: "explicit-state search to fix-point per configuration (7 route tables x {HandleMethodNotAllowed} x {HandleFallbackRoute} x capacities 0..3(4)): state = cache content in recency order with route and params per entry (verif hook); " +
-		"every reachable state x every request of the alphabet (11 / 14 requests: hits, misses, evictions, HEAD->GET, 405 probes, fallback, 404) executed on the real caching router via Match and ServeHTTP and compared with the non-caching twin; non-trivial = newly reached distinct cache state",
+	Rule: "explicit-state search to fix-point per configuration (8 route tables x {HandleMethodNotAllowed} x {HandleFallbackRoute} x {StrictLastSlash} x capacities 0..3(4)): state = cache content in recency order with route and params per entry (verif hook); " +
+		"all histories of length <=2 (thorough 3) without state merging, then every reachable state x every request of the alphabet (12 / 15 requests: hits, misses, evictions, HEAD->GET, 405 probes, fallback, 404) executed on the real caching router via Match and ServeHTTP and compared with the non-caching twin; non-trivial = newly reached distinct cache state",
 	Assume: []string{
 		"canonical state = cache content only: tables and options are frozen after registration and contexts are reset per request (C10)",
 		"successor = replay of the shortest history on a fresh router plus one request",
 		"handlers treat Params as read-only",
 	},
 	Bounds: func(tier string) map[string]any {
-		return map[string]any{"tables": len(cgTables), "requests": len(cgReqs(tier == "thorough")), "capacities": map[string]string{"quick": "0..3", "thorough": "0..4"}[tier], "option_subsets": 4}
+		return map[string]any{"tables": len(cgTables), "requests": len(cgReqs(tier == "thorough")), "capacities": map[string]string{"quick": "0..3", "thorough": "0..4"}[tier], "option_subsets": 8}
 	},
 	Gen: func(tier string, emit func(c07Case)) {
-		cgGen(tier, func(c cgConfig, ext bool) { emit(c07Case{Cfg: c, Ext: ext}) })
+		cgGen(tier, func(c cgConfig, ext bool) { emit(c07Case{Cfg: c, Ext: ext, Full: cgFullDepth(tier)}) })
 	},
 	Run: func(c c07Case, st *fw.Stats) []fw.Viol {
-		return cacheGraphRun(c.Cfg, cgReqs(c.Ext), "C07", st)
+		return cacheGraphRun(c.Cfg, cgReqs(c.Ext), "C07", c.Full, st)
 	},
 	Guard: func(tier string, st *fw.Stats) []string {
 		var g []string
